@@ -115,7 +115,11 @@ pub fn value_for_cfg(kind: Kind, seed: u32, hist_cfg: usize) -> NValue {
 
 /// `allow_mixed`: let collectors of different kinds share a name (C14's known-finding class).
 pub fn gen_scenario(src: &mut Src, allow_mixed: bool) -> Scenario {
-    let ngroups = 1 + src.below(4);
+    let mut ngroups = 1 + src.below(4);
+    if ngroups == 4 && src.chance(40) {
+        // occasionally many families (the library imposes no limit; sorting and merging code has size thresholds)
+        ngroups += src.below(NAMES.len() - 3);
+    }
     let names = distinct(src, NAMES, ngroups);
     let mut colls = vec![];
     let mut seed = 0u32;
@@ -143,7 +147,11 @@ pub fn gen_scenario(src: &mut Src, allow_mixed: bool) -> Scenario {
             let consts: BTreeMap<String, String> = cnames.iter().cloned().zip(vals).collect();
             let mut children = vec![];
             if k.is_vec() {
-                let nch = src.below(7);
+                let mut nch = src.below(7);
+                if nch == 6 && src.chance(48) {
+                    // occasionally many children (more than the 20 elements up to which slices are insertion-sorted)
+                    nch += src.below(60);
+                }
                 let mut seen: Vec<Vec<String>> = vec![];
                 for _ in 0..nch {
                     let t: Vec<String> = vnames.iter().map(|_| src.text(VALUE_FRAGS, 2)).collect();
